@@ -71,9 +71,9 @@ type ent struct {
 }
 
 type FS struct {
-	files []ent
-	dirs  []string
-	Log   []Op
+	files   []ent
+	dirs    []string
+	Log     []Op
 	nextIno int
 	// Points: every FS operation is a scheduling point (crash/flush interleavings)
 	Points bool
@@ -305,7 +305,9 @@ func ImageFrom(base *FS, log []Op, k int) *FS {
 // MarkEvent records a harness event in the op log (commit acknowledged, ...).
 //
 //go:norace
-func MarkEvent(m string) { cur.Log = append(cur.Log, Op{Kind: "mark", Mark: m, Tid: vsched.CurThreadID()}) }
+func MarkEvent(m string) {
+	cur.Log = append(cur.Log, Op{Kind: "mark", Mark: m, Tid: vsched.CurThreadID()})
+}
 
 //go:norace
 func hpath(p string) uint64 { return vsched.HashString(p) | 1<<63 }
